@@ -178,6 +178,16 @@ fn scenario_files<R: Rng>(rng: &mut R, quick: bool) -> (Vec<FileSpec>, &'static 
                     Event { id: 1, serial, ts: t0, banks: vec![trg_bank(ts, rng), Bank { name: "C09A".into(), data: vec![1, 3, 0, 0] }] }
                 }
                 10 => Event { id: 1, serial, ts: t0, banks: vec![] }, // a main event without any bank: still one (empty) row
+                11 => {
+                    // a good TRG bank next to a bank of length zero: the library rejects the event (empty wire / pad /
+                    // second TRG / unknown bank), so the vertices row must be empty
+                    let name = *["C09A", "PC00", "ATAT", "XXXX", "C180"].choose(rng).unwrap();
+                    let mut banks = vec![trg_bank(ts, rng), Bank { name: name.into(), data: vec![] }];
+                    if rng.gen() {
+                        banks.swap(0, 1);
+                    }
+                    Event { id: 1, serial, ts: t0, banks }
+                }
                 _ => Event { id: 1, serial, ts: t0, banks: vec![trg_bank(ts, rng)] },
             };
             events.push(ev);
@@ -336,6 +346,14 @@ pub fn run(runner: &mut Runner, bindir: &Path, work: &Path, seed: u64, count: u6
             }
             orders.sort();
             orders.dedup();
+            // the same path named twice (and three times, and among others): must be refused like any duplicate
+            if ci % 5 == 3 && fault == "none" {
+                orders.push(vec![0, 0]);
+                if n >= 2 {
+                    orders.push(vec![0, 1, 0]);
+                    orders.push(vec![1, 0, 1, 1]);
+                }
+            }
             let threads: Vec<u32> = if prog == "vertices" { if quick { vec![1, 5] } else { vec![1, 2, 5, 16] } } else { vec![1] };
             let base = obj(vec![
                 ("fam", json!("csvrun")),
